@@ -1,5 +1,6 @@
 import WcModel.Properties.C08
 import WcModel.Properties.C08all
+import WcModel.Properties.C08cap
 #print axioms WcModel.C08.capture_invisible
 #print axioms WcModel.C08.strip_certificate
 #print axioms WcModel.C08.eraseCap_invisible
@@ -21,3 +22,5 @@ import WcModel.Properties.C08all
 #print axioms WcModel.C08.translate_capture_count_nonvacuous
 #print axioms WcModel.C08.DriveLeaf_needed
 #print axioms WcModel.C08.DriveCapFree_needed
+#print axioms WcModel.C08.translate_capture_text
+#print axioms WcModel.C08.translate_capture_reported
